@@ -58,8 +58,18 @@ pub fn run(args: &Args) {
   // a seed-dependent window of the corpus (the whole corpus in the thorough tier)
   let n = args.count.min(lines.len());
   let start = (args.seed as usize).wrapping_mul(7919) % lines.len();
-  for i in 0..n {
-    let l = lines[(start + i) % lines.len()];
+  // every Unicode property name of the source tables and of ES2021 / ES2022 in every position (`\\p{N}`, `\\p{sc=N}`,
+  // `\\p{gc=N}`, …; names newer than ES2022 left out): a seed-dependent eighth in the quick tier, all of it in the thorough one
+  let ptext = std::fs::read_to_string("/verif/corpus/regex_v8_props.jsonl").unwrap_or_default();
+  let plines: Vec<&str> = ptext.lines().collect();
+  if plines.is_empty() {
+    out.found("C12", "v8-corpus-missing", "props", json!({}));
+  }
+  let whole = n == lines.len();
+  let pick: Vec<&str> = plines.iter().enumerate().filter(|(i, _)| whole || (i + args.seed as usize) % 8 == 0).map(|(_, l)| *l).collect();
+  out.add("property-name-cases", pick.len() as u64);
+  let all: Vec<&str> = pick.into_iter().chain((0..n).map(|i| lines[(start + i) % lines.len()])).collect();
+  for l in all {
     let Ok(j) = serde_json::from_str::<Value>(l) else { continue };
     let (p, f) = (j["p"].as_str().unwrap_or(""), j["f"].as_str().unwrap_or(""));
     if f.contains('v') {
